@@ -847,7 +847,26 @@ func (n *node) stop(force bool) {
 	}
 
 	if force == false {
-		n.waitprocesses.Wait()
+		done := make(chan struct{})
+		go func() {
+			n.waitprocesses.Wait()
+			close(done)
+		}()
+	waiting:
+		for {
+			select {
+			case <-done:
+				break waiting
+			case <-time.After(100 * time.Millisecond):
+				// a process spawned after the round above (a child restarted by its supervisor,
+				// a process started by a terminating one) has not been asked to stop yet
+				n.processes.Range(func(_, v any) bool {
+					p := v.(*process)
+					n.RouteSendExit(p.parent, p.pid, gen.TerminateReasonShutdown)
+					return true
+				})
+			}
+		}
 	}
 
 	n.NetworkStop()
